@@ -148,6 +148,7 @@ pub fn main(a: &Args) {
                     }
                     ("bnf", g.text())
                 }
+                2 if i % 8 == 2 => ("choice-names", crate::c17::choice_name_stress(&mut rng)),
                 _ => ("ast", gen_ast(&mut rng).text()),
             };
             // sometimes one rule is written as two definitions of the same name (`A: x; A: y;`)
